@@ -211,6 +211,13 @@ func (k *Kernel) mixDigest(h *uint64, s string) {
 	*h = x
 }
 
+// Mix folds component-level observations (inputs, schedules and outputs of checks that drive a lal component
+// directly rather than through sockets) into the canonical digest.
+func (k *Kernel) Mix(s string) { k.mixDigest(&k.digest, s); k.mixDigest(&k.schedHash, s) }
+
+// IsAbort reports whether a recovered panic value is the kernel's own control-flow signal (violation / abort).
+func IsAbort(r interface{}) bool { _, ok := r.(abortSignal); return ok }
+
 // Digest returns the canonical digest of everything observable so far (actions + bytes).
 func (k *Kernel) Digest() uint64    { return k.digest }
 func (k *Kernel) SchedHash() uint64 { return k.schedHash }
